@@ -10,3 +10,15 @@ Local Open Scope string_scope.
 Example C02_mutating_commands_are_one_locked_transaction :
   concat (map mutating_ok mutating_entries) = [].
 Proof. vm_compute. reflexivity. Qed.
+
+(** the lock file is never replaced: every process flocks the same inode. *)
+Example C02_lock_file_is_never_replaced : withlock_prim_ok = [].
+Proof. vm_compute. reflexivity. Qed.
+
+(** init takes no lock and only creates what is missing (MkdirAll + the no-truncate ensure): it never renames, removes or rewrites a log. *)
+Example C02_init_only_creates : init_ok = [].
+Proof. vm_compute. reflexivity. Qed.
+
+(** appendEvents: one write(2) per append, so no reader or crash can observe half a line of it. *)
+Example C02_append_is_one_write : append_prim_ok = [].
+Proof. vm_compute. reflexivity. Qed.
